@@ -254,6 +254,7 @@ fn selftest() -> Result<(), String> {
 
 fn space(thorough: bool) -> Vec<PortableRegistry> {
     let mut regs = regspace::registries(thorough);
+    regs.extend(regspace::length_ladder(thorough));
     // registries produced by the real Registry from the static universe (singles and ordered pairs)
     let u = u1::universe();
     for a in &u {
